@@ -233,7 +233,9 @@ def spaces(tier):
                 "options 2, parallelizable bit per instance; chain bit; deps {omitted, [], [:x], [:x,:y]}; {ok, non-instance element, "
                 "experiments=None, one-shot generator, tuple}", depth=6, goals=goals, outside=[">3 instances"])]
     if tier == "thorough":
-        sp.append(Space("inst3", make(3), "0..3 instances, same pools", depth=7, tiers=("thorough",)))
+        sp.append(Space("inst3", make(3, args_pool=ARGS[:2], opts_pool=OPTS[:2], names=("a", "b", "a", "c"), specials=3),
+                        "0..3 instances; names {a, b, a again, c}; args 2, options 2, parallelizable bits; chain; deps; {ok, non-instance, None}",
+                        depth=7, tiers=("thorough",)))
     return sp
 
 
